@@ -16,6 +16,7 @@ type WOpts struct {
 	Fake        bool // allow symbols/imports outside the fixture universe
 	KeyPerm     bool // render YAML mappings in a drawn key order
 	DotPkg      bool // allow `"."`-package multi-segment values (push goimports into its environment scan)
+	AbsPatterns bool // input files live under a stable absolute root and are named by absolute patterns
 	Storm       bool // 1-4 additional node-kind confusions anywhere in any file
 	Big         bool // larger configurations
 }
@@ -39,6 +40,9 @@ func genWorldKeyed(src *choice.Src, o WOpts, keySeed uint64) *World {
 	gopts := gen.Opts{MaxParams: 6, MaxSvcs: 6, MaxDecs: 3}
 	if o.Big {
 		gopts = gen.Opts{MaxParams: 14, MaxSvcs: 16, MaxDecs: 5}
+		if src.Chance("huge", 1, 3) {
+			gopts.MaxSvcs = 48
+		}
 	} else if src.Chance("small", 1, 4) {
 		gopts.MaxParams, gopts.MaxSvcs, gopts.MaxDecs = 2, 2, 1
 	}
@@ -49,6 +53,12 @@ func genWorldKeyed(src *choice.Src, o WOpts, keySeed uint64) *World {
 	}
 	if o.Fake && src.Chance("fake", 1, 2) {
 		gen.AddFakeWorld(src, cfg, o.DotPkg)
+		if o.Big {
+			// many services that each bring packages not used before (import alias numbering)
+			for k := src.Range("fake.more", 0, 10); k > 0; k-- {
+				gen.AddFakeWorld(src, cfg, false)
+			}
+		}
 	}
 	var post []postMut
 	if o.Defects && src.Chance("defect", 1, 2) {
@@ -107,6 +117,9 @@ func genWorldKeyed(src *choice.Src, o WOpts, keySeed uint64) *World {
 				w.Flags = append(w.Flags, f)
 			}
 		}
+	}
+	if o.AbsPatterns {
+		w.AbsInputs = true
 	}
 	w.Version = choice.Pick(src, "bver", []string{"", "", "dev-main", "0.4.2", "0.4.0", "1.2.0", "v0.4.1"})
 	w.MapSeed = seed64(src, "mapseed")
